@@ -98,7 +98,7 @@ def layers(tier, seed):
     refs, pool, sets = e2e.query_sets(n, 'c05')
     if tier != 'quick' or seed:
         sets = sets + e2e.query_sets(2 if tier == 'quick' else 40, 'c05-seed-%d' % seed)[2]
-    ws = [e2e.set_world(refs, pool, s, nrefs=(3, 2, 3, 1)[i % 4], short_ref=i % 3 == 1) for i, s in enumerate(sets)]
+    ws = [e2e.set_world(refs, pool, s, nrefs=(3, 2, 3, 1)[i % 4], short_ref=i % 3 == 1, ref_ids=(17, 4, 9) if i % 4 == 2 else None) for i, s in enumerate(sets)]
     extras = tuple(('-p', str(p)) for p in (1, 2, 3, 5))
     return [e2e.WorldLayer('worlds', ws, judge, extras=extras, extensions=[sink.Candidates, sink.Seeds],
                            bounds=dict(worlds=len(ws), peaksCount=[1, 2, 3, 5], modes=list(e2e.MODES), queries_per_world=[3, 5], references=[1, 3]),
